@@ -671,18 +671,18 @@ def check_charlen(ctx, yc):
 def check_token_ws(ctx, yc):
     """C02.TOKEN-WS: a bare word ends at the first blank OR tab, and a word followed only by white space is still split off."""
     f = yc.method('get_token')
-    top = [st for st in f.node.body if isinstance(st, ast.If)]
-    ctx.need(top, 'get_token: dispatch on the first character not found')
-    node = top[-1]
-    while node.orelse and len(node.orelse) == 1 and isinstance(node.orelse[0], ast.If):
-        node = node.orelse[0]
-    bare = node.orelse
-    ctx.need(bare, 'get_token: the bare-word branch not found')
+    # the bare-word split: a splitting call of the function that is not the pattern of the quoted / brace-wrapped forms (those start
+    # with the opening character), wherever the function's layout puts it (else branch, fall-through after early returns)
     splits = []
-    for st in bare:
-        for c in walk_local(st):
-            if isinstance(c, ast.Call) and isinstance(c.func, ast.Attribute) and c.func.attr in ('split', 'partition', 'rpartition', 'match', 'search'):
-                splits.append(c)
+    for c in walk_local(f.node):
+        if isinstance(c, ast.Call) and isinstance(c.func, ast.Attribute) and c.func.attr in ('split', 'partition', 'rpartition', 'match', 'search'):
+            if c.func.attr in ('match', 'search'):
+                pat = c.args[0] if c.args else None
+                if pat is not None and not isinstance(pat, ast.Constant):
+                    pat = FA(f).resolve(pat) if isinstance(pat, ast.Name) else None
+                if isinstance(pat, ast.Constant) and isinstance(pat.value, str) and pat.value.lstrip('^').startswith(('"', '\\{', '{', '[{]', '["]')):
+                    continue
+            splits.append(c)
     ctx.need(splits, 'get_token: the bare-word split not found')
     c = splits[0]
     ok, why = False, 'unrecognised'
